@@ -114,6 +114,23 @@ def check(ctx):
             for (a, b_, kind) in ex:
                 ctx.ob("R07.4", f"{k}|exit|{kind}", kind in ("success", "timeout"), body.loc(a),
                        {"success": "leaves the loop when the target's id is vacant again", "timeout": "leaves the loop only under `timeout != Duration::ZERO`", "other": "leaves the wait loop although the stream has not ended and no timeout was requested"}[kind])
+                if kind in ("success", "timeout"):
+                    vals = util.returned_values(body, dg, b_)
+                    want = ("const", 1) if kind == "success" else ("const", 0)
+                    ctx.ob("R07.4", f"{k}|answer|{kind}", vals == {want}, body.loc(a), f"answers {sorted(map(str, vals))} on the {kind} exit; required {'true (the stream ended)' if kind == 'success' else 'false (it did not end in time)'}")
+            # the vacancy predicate asks about the caller's stream id: some body of end_stream compares a vacant id with the stream_id parameter for equality
+            eqs = 0; neqs = 0
+            for g in [g for g in fx.fns if (g.get("owner_fn") or g["key"]) == k.split("::{closure#")[0]]:
+                gb = Body(g); gd = D.Dag(gb)
+                for x in gb.reachable:
+                    for st in gb.stmts(x):
+                        if st[0] == "A" and st[2][0] == "Bin" and st[2][1] in ("Eq", "Ne"):
+                            txt = show(gd.rvalue((x, gb.stmts(x).index(st), st[2]), 0))
+                            if "stream_id" in txt and ("vacant" in txt or "param" in str(gd.rvalue((x, gb.stmts(x).index(st), st[2]), 0))):
+                                if st[2][1] == "Eq": eqs += 1
+                                else: neqs += 1
+            if eqs + neqs:
+                ctx.ob("R07.4", f"{k}|vacancy-asks-for-the-target-id", eqs >= 1 and neqs == 0, site, f"{eqs} equality / {neqs} inequality comparison(s) of a vacant id with stream_id; required: `vacant id == stream_id`")
     S.check_cancel_not_repeated(ctx, "R07.4")
     # ------------------------------------------------------------------ R07.5 id reusable on drop
     S.check_release_all_channels(ctx, "R07.5")
